@@ -409,12 +409,45 @@ impl OpCode {
 }
 
 /// Computes the weight of a bunch of opcodes.
+///
+/// A loop weighs one plus its iteration count times the weight of its body, where the body is the
+/// next `body_len` opcodes, cut short at the end of the slice being weighed. This is computed in
+/// O(n + total body length) steps rather than by re-weighing every nested body recursively, which
+/// took time exponential in the nesting depth.
 pub fn opcodes_weight(opcodes: &[OpCode]) -> u128 {
-    let (mut sum, mut rest) = opcodes_car_weight(opcodes);
-    while !rest.is_empty() {
-        let (delta_sum, new_rest) = opcodes_car_weight(rest);
-        rest = new_rest;
-        sum = sum.saturating_add(delta_sum);
+    let n = opcodes.len();
+    // uncut[i]: weight of the loop opcode at i when its body is cut short only by the end of the program.
+    // Filled from the back, since a loop body only contains later opcodes.
+    let mut uncut = vec![0u128; n];
+    for i in (0..n).rev() {
+        if let OpCode::Loop(iters, body_len) = &opcodes[i] {
+            let body_end = (i + 1).saturating_add(*body_len as usize).min(n);
+            uncut[i] = loop_weight(*iters, range_weight(opcodes, i + 1, body_end, &uncut));
+        }
+    }
+    range_weight(opcodes, 0, n, &uncut)
+}
+
+fn loop_weight(iters: u16, body_weight: u128) -> u128 {
+    body_weight.saturating_mul(iters as u128).saturating_add(1)
+}
+
+/// Weight of `opcodes[start..end]` taken as a slice of its own.
+fn range_weight(opcodes: &[OpCode], start: usize, end: usize, uncut: &[u128]) -> u128 {
+    let mut sum = 0u128;
+    for k in (start..end).rev() {
+        let car = match &opcodes[k] {
+            OpCode::Loop(iters, body_len) => {
+                if (k + 1).saturating_add(*body_len as usize) <= end {
+                    uncut[k]
+                } else {
+                    // the body is cut at `end`, so it is exactly opcodes[k+1..end], weighed in `sum`
+                    loop_weight(*iters, sum)
+                }
+            }
+            other => opcodes_car_weight(std::slice::from_ref(other)).0,
+        };
+        sum = sum.saturating_add(car);
     }
     sum
 }
